@@ -37,6 +37,8 @@ func runC09(c *Ctx) {
 	c.Rule("C09.O4", "E4", "checkChunked: chunked=true is followed by delete(Content-Length) and Transfer-Encoding: chunked; fallback needs ProtoAtLeast(1,1), no Content-Length, status not 204/304; eoncodeHead emits Content-Length only when !chunked", 3)
 	c.Rule("C09.O5", "E4", "eoncodeHead / checkChunked: flag tested first and set before any emission", 2)
 	c.Rule("C09.O6", "nil-flow", "a value bound by `v, ok := x.(T)` is dereferenced only on paths dominated by ok", 10)
+	c.Rule("C09.O8", "E4", "Content-Length accounting: Write adds len(data) to bodyWritten at most once per call and on every path that accepts the bytes; writeChunk is only reached with a non-empty chunk (an empty one would encode the terminating chunk)", 3)
+	c09Accounting(c)
 	c.Rule("C09.O7", "E2-ext", "a buffer from Malloc(n), n != 0, is truncated or filled before it is the destination of Append/AppendString", 10)
 
 	write := c.Fn("C09.O1", "(*nbhttp.Response).Write")
@@ -660,4 +662,100 @@ func c09FreshBuffers(c *Ctx) {
 	if n < 10 {
 		c.Unres("C09.O7", "Malloc sites", fmt.Sprintf("found %d", n))
 	}
+}
+
+// c09Accounting: O8.
+func c09Accounting(c *Ctx) {
+	w := c.Fn("C09.O8", "(*nbhttp.Response).Write")
+	if w == nil {
+		return
+	}
+	fi := c.P.Info(w)
+	const fBW = "nbhttp.Response.bodyWritten"
+	stores := c.P.StoresTo(w, fBW)
+	// at most once
+	bad := ""
+	for _, a := range stores {
+		for _, b := range stores {
+			if a != b && fi.CanReach(a, b) {
+				bad = "Write adds to bodyWritten at " + c.Pos(a) + " and again at " + c.Pos(b) + " on one path: the bytes are counted twice and a later legal Write is refused with ErrContentLength (body shorter than the announced length)"
+			}
+		}
+	}
+	c.Cond(bad == "" && len(stores) > 0, "C09.O8", fnKey(c.P, w, "bodyWritten counted at most once"), c.FnPos(w), fmt.Sprintf("%d increment site(s), pairwise exclusive", len(stores)), bad)
+
+	// on every accepting path: from the Content-Length test's pass edge, every return that is
+	// not a constant failure is behind an increment
+	bad = ""
+	var gate *ssa.If
+	gateEdge := -1
+	for _, i := range fi.Ifs() {
+		b, ok := stripNot(i.Cond).(*ssa.BinOp)
+		if !ok || b.Op != token.GTR {
+			continue
+		}
+		if sum, isSum := ir.Resolve(b.X).(*ssa.BinOp); isSum && sum.Op == token.ADD && c.P.LoadedField(ir.Resolve(sum.X)) == fBW {
+			gate = i
+			_, t := ir.StripNot(i.Cond, true)
+			gateEdge = 1
+			if !t {
+				gateEdge = 0
+			}
+		}
+	}
+	if gate == nil {
+		bad = "the ErrContentLength test (bodyWritten + l > Content-Length) was not found"
+	} else {
+		isStore := func(in ssa.Instruction) bool {
+			st, ok := in.(*ssa.Store)
+			if !ok {
+				return false
+			}
+			fa, ok := st.Addr.(*ssa.FieldAddr)
+			return ok && c.P.FieldKey(fa) == fBW
+		}
+		vis, _ := fi.ReachFromEdge(gate, gateEdge, isStore)
+		for _, r := range fi.Returns() {
+			if !vis[r] {
+				continue
+			}
+			rv := ir.RetVals(r)
+			if c.isNonNilErrorValue(rv[1]) {
+				continue
+			}
+			if fi.HasFact(r, func(ft ir.Fact) bool {
+				x, isNil, ok := ir.NilTest(ft.Cond, ft.Truth)
+				return ok && !isNil && ir.Resolve(x) == ir.Resolve(rv[1])
+			}) {
+				continue
+			}
+			bad = "Write can accept bytes and return at " + c.Pos(r) + " without adding them to bodyWritten: more than the announced Content-Length could be written"
+		}
+	}
+	c.Cond(bad == "", "C09.O8", fnKey(c.P, w, "bodyWritten counted on every accepting path"), c.FnPos(w), "every non-failing return behind the Content-Length test passes an increment", bad)
+
+	// writeChunk only with a non-empty chunk
+	bad = ""
+	n := 0
+	for _, f := range c.pkgFuncs("nbhttp") {
+		ffi := c.P.Info(f)
+		for _, cs := range c.P.CallsNamed(f, "(*nbhttp.Response).writeChunk") {
+			n++
+			l := cs.Common.Args[len(cs.Common.Args)-1]
+			ok := ffi.HasFact(cs.In, func(ft ir.Fact) bool {
+				e, zero, isZ := ir.ZeroTest(ft.Cond, ft.Truth)
+				return isZ && !zero && ir.Resolve(e) == ir.Resolve(l)
+			})
+			if lo, _ := ffi.IntervalAt(cs.In, l); lo >= 1 {
+				ok = true
+			}
+			if !ok {
+				bad = "writeChunk is reached at " + c.Pos(cs.In) + " without knowing that the chunk is non-empty: an empty Write would be encoded as 0 CRLF CRLF, the terminating chunk, in the middle of the body"
+			}
+		}
+	}
+	if n == 0 {
+		bad = "no call of writeChunk found"
+	}
+	c.Cond(bad == "", "C09.O8", "writeChunk only with a non-empty chunk", "", fmt.Sprintf("%d call site(s) behind l != 0", n), bad)
 }
